@@ -485,9 +485,34 @@ pub fn run(out: &mut Out, tier: &str, seed: u64, prop: &str) {
     }
     // ---- (2) derivations × layouts --------------------------------------------------------------
     let n = if big { 4000 } else { 700 };
-    for _ in 0..n {
-        let depth = rng.below(4);
-        let t = gen_parse_term(&mut rng, &p, depth);
+    let mut terms: Vec<Term> = Vec::new();
+    for _ in 0..n { let depth = rng.below(4); terms.push(gen_parse_term(&mut rng, &p, depth)); }
+    if prop == "C01" {
+        // and / or as boolean connectives over REPEATED boolean atoms (extra, in, contains) of either polarity:
+        // (±A o1 ±B) o2 (±A o3 ±B) for every pair of atoms, every sign pattern, every operator pattern
+        let atoms: Vec<(Term, Term)> = vec![
+            (Term::X(false, "a".into()), Term::X(true, "a".into())),
+            (Term::X(false, "b".into()), Term::X(true, "b".into())),
+            (Term::S(1, 6, "nt java".into()), Term::S(1, 7, "nt java".into())),
+            (Term::S(12, 8, "lin".into()), Term::S(12, 9, "lin".into())),
+        ];
+        let pick = |a: &(Term, Term), pos: bool| if pos { a.0.clone() } else { a.1.clone() };
+        let bin = |is_and: bool, l: Term, r: Term| if is_and { Term::and(l, r) } else { Term::or(l, r) };
+        for i in 0..atoms.len() {
+            for j in (i + 1)..atoms.len() {
+                for signs in 0..16u32 {
+                    for ops in 0..8u32 {
+                        if !big && (signs + ops + (i + j) as u32) % 3 != 0 { continue; }
+                        let l = bin(ops & 1 != 0, pick(&atoms[i], signs & 1 != 0), pick(&atoms[j], signs & 2 != 0));
+                        let r = bin(ops & 4 != 0, pick(&atoms[i], signs & 4 != 0), pick(&atoms[j], signs & 8 != 0));
+                        terms.push(bin(ops & 2 != 0, l, r));
+                        out.stat("c01.repeated_boolean_atoms");
+                    }
+                }
+            }
+        }
+    }
+    for t in terms {
         let Some(text) = layout(&mut rng, &t, true) else { continue };
         let pa = parse_case(out, &mut w, prop, "m", &text);
         if prop == "C01" || prop == "C07" {
@@ -505,7 +530,7 @@ pub fn run(out: &mut Out, tier: &str, seed: u64, prop: &str) {
             out.nontrivial(text.clone());
             if prop == "C01" {
                 // every entry point agrees with the PEP reading of the AST on region environments
-                let envs = region_envs(&mut rng, &[&t], 6);
+                let envs = region_envs(&mut rng, &[&t], 12);
                 for e in &envs {
                     let Some(want) = term_sem(&t, e) else { out.stat("c01.carved_out"); continue };
                     let env = e.env();
